@@ -11,6 +11,16 @@ pub fn ohsl_panic(msg: &str) -> !
     panic!("{}", msg)
 }
 
+/// R1 with a stated rejection condition (`@panics only_if COND`): the panic may be reached only when COND holds,
+/// so a guard that rejects more than the contract allows fails this precondition.
+#[verifier::external_body]
+pub fn ohsl_panic_when(Ghost(allowed): Ghost<bool>, msg: &str) -> !
+    requires allowed,
+    ensures false,
+{
+    panic!("{}", msg)
+}
+
 /// Used only by the vacuity variant of the generated file.
 #[verifier::external_body]
 pub fn ohsl_unreached<A>() -> A
